@@ -242,6 +242,10 @@ pub fn run_c23(ctx: &Ctx) -> Finish {
     ctx.pass(ev)
 }
 
+pub fn replay_row_quiet(c: &RowCase) -> Option<String> {
+    c23_check(c).err()
+}
+
 pub fn replay_row(c: &RowCase) -> Option<String> {
     println!(
         "first_zeros_aligned({:#018x}, {}) = {:x?}; reference = {:x?}",
